@@ -7,6 +7,16 @@ ID = "C01"
 GEN = ["Infra"]
 LEVEL = "proof"
 TECHNIQUE = "Coq proof: refinement of the RecordTensor model to a list-of-observations spec, by induction over operation sequences (model tied to the code by translation of _unwind_ptr and by differential correspondence)"
+LEVEL_TEXT = ("Machine-checked proof (Coq, axiom-free) that every RecordTensor operation of the model acts on "
+              "'the observation k steps before the write position' exactly as a list-of-observations model says, for every "
+              "record size N>=1, pointer position, shape and operation sequence (invariant lifted over runs); the model is "
+              "tied to the code by re-translating _unwind_ptr on every run and by a differential correspondence check of all 13 "
+              "operations against the real class; a pointer-free Python list model is the direct oracle / failing-input search.")
+LEVEL_NOTE = ("Trusted: Coq kernel; translator for _unwind_ptr; hand-written model C01/Ring.v validated by correspondence only "
+              "(generator coverage); torch indexing/cat/gather/scatter/roll modelled by their meaning. Proved: read, write (both "
+              "branches), incr/decr, push (incl. storage creation and dtype adoption), pop/peek, align, reset, readrange "
+              "scalar+tensor and their agreement, writerange scalar (all three code paths), well-formedness over every run. "
+              "NOT proved (correspondence + oracle only): the tensor-offset writerange (scatter) characterisation.")
 HEADER = ("From Coq Require Import List ZArith Bool.\nFrom Inferno Require Import Base.NumF C01.Ring C01.RingExec.\n"
           "Import ListNotations.\nOpen Scope Z_scope.\n")
 IMPL = os.path.join(F.VERIF, "tools", "impl", "c01_impl.py")
@@ -382,14 +392,43 @@ def load_corpus():
     return out
 
 
-def shrink(case, fails):
-    """drop operations while the failure persists"""
+def minimise(case, rounds=10):
+    """delta-debugging on the operation list against the implementation + oracle; one subprocess per round"""
     ops = case["ops"]
-    i = 0
-    while i < len(ops):
-        c2 = dict(case, ops=ops[:i] + ops[i + 1:])
-        if c2["ops"] and fails(c2):
-            ops = c2["ops"]
-        else:
-            i += 1
-    return dict(case, ops=ops)
+    for _ in range(rounds):
+        n = len(ops)
+        if n <= 1:
+            break
+        cands = []
+        # drop everything after the failing step, then try removing single ops / chunks
+        chunk = max(1, n // 8)
+        for a in range(0, n, chunk):
+            c = ops[:a] + ops[a + chunk:]
+            if c:
+                cands.append(c)
+        tr = F.run_impl(IMPL, {"cases": [dict(case, ops=c) for c in cands]})
+        better = None
+        for c, t in zip(cands, tr):
+            cc = dict(case, ops=c)
+            if oracle_case(cc, t) is not None:
+                better = c
+                break
+        if better is None:
+            if chunk == 1:
+                break
+            continue
+        ops = better
+    c = dict(case, ops=ops)
+    t = F.run_impl(IMPL, {"cases": [c]})[0]
+    d = oracle_case(c, t)
+    if d is not None:
+        c = dict(c, ops=c["ops"][: d["step"] + 1])
+    return c, d
+
+
+def replay(case):
+    t = F.run_impl(IMPL, {"cases": [case]})[0]
+    d = oracle_case(case, t)
+    if d is None:
+        return True, "replay: the implementation agrees with the list-of-observations model on this case"
+    return False, "replay: still failing: " + repr(d)[:1500]
